@@ -87,7 +87,11 @@ Inductive obs :=
 | ONt (r : option (string * value))
 | OBad                         (* an observation the harness could not canonicalise *)
 | OSelf                        (* an attribute read on an INSTANCE handed back the tunable object *)
-| ODone                        (* the harness changed the owner's truthiness (no library call) *)
+| ODone                        (* the harness changed the owner's truthiness / stepped the clock /
+                                  assigned a class attribute / constructed an instance (no call of
+                                  magic_tunable) *)
+| OStamp (t : Z)               (* the timestamp an independent subscriber sees on a topic, relative
+                                  to the start of the history (only recorded under the paused clock) *)
 | OAny.                        (* masked: access to a tunable that is not bound (instance not set
                                   up yet, or a private name setup_tunables skips) -- the property
                                   says nothing about it *)
@@ -137,6 +141,24 @@ Definition xhist_ok (c : list xop * list obs) : bool :=
    counts as a disagreement, it is never silently accepted. *)
 Definition ghist_ok (c : bool * (list xop * list obs)) : bool :=
   fst c && xhist_ok (snd c).
+
+(* histories in the environment of Model section 13: a clock (paused and
+   stepped, or running), client updates with timestamps of their own, class
+   attributes assigned between two setups (StateMachine instances constructed
+   one after another).  [c] = (the classes as their class statements leave
+   them, the clock at the start, (operations, observations)).  A timestamp
+   that could not be recorded (running clock: OAny) is masked. *)
+Definition gev_match (e : gevent * bool) (o : obs) : bool :=
+  match fst e, o with
+  | GEv e', _ => xev_match e' o
+  | GStamp t, OStamp t' => Z.eqb t t'
+  | GStamp _, OAny => true
+  | GDone, ODone => true
+  | _, _ => false
+  end.
+
+Definition envhist_ok (c : list (list classbody) * Z * (list gop * list obs)) : bool :=
+  all2 gev_match (snd (grun (g0 (snd (fst c)) (fst (fst c))) (fst (snd c)))) (snd (snd c)).
 
 Fixpoint bad_from {A : Type} (ok : A -> bool) (i : nat) (l : list A) : list nat :=
   match l with
